@@ -361,7 +361,7 @@ class StmtMixin:
                 out.extend(ok(pf))
             return out
         if isinstance(obj, VOpaque):
-            p.ghost["$ir_dirty"] = f"attribute store .{name} on an unmodelled object at {w}"
+            self.mark_dirty(p, f"attribute store .{name} on an unmodelled object at {w}")
             return [(p, NEXT)]
         raise Unsupported(f"attribute store on {obj!r} at {w}")
 
@@ -657,11 +657,12 @@ class StmtMixin:
                 p.frame_for_store(name).locals[name] = VOpaque(f"loop-carried {name}")
         self.havoc_for_spec(p, spec.modifies)
         havoc_heap = dict(p.heap)
-        for inv in (spec.invariant or []):
-            p.assume(self.spec_bool(inv, p, {}))
         if self._body_may_dirty(p, s):
             # earlier iterations may already have touched IR state
             p.ghost["$ir_dirty"] = p.ghost.get("$ir_dirty") or f"an earlier iteration of the loop at {L}"
+            self.havoc_edit_counter(p)
+        for inv in (spec.invariant or []):
+            p.assume(self.spec_bool(inv, p, {}))
         enter = z3.Bool(fresh_name("opaque_iter"))
         pt, pf = self.fork(p, enter, f"iter {L}")
         out = []
@@ -840,8 +841,10 @@ class StmtMixin:
         # frame may not contain an IR-mutating call at all (checked at the end of every body path)
         dirty_at_head = bool(p.ghost.get("$ir_dirty"))
         default_frame = bool(getattr(spec, "fresh_boxes", False))
-        if self.lenient and not dirty_at_head and not default_frame and self._body_may_dirty(p, s):
-            p.ghost["$ir_dirty"] = f"an earlier iteration of the loop at {L}"
+        if self.lenient and not default_frame and self._body_may_dirty(p, s):
+            if not dirty_at_head:
+                p.ghost["$ir_dirty"] = f"an earlier iteration of the loop at {L}"
+            self.havoc_edit_counter(p)
         if kind == "for":
             kv = VInt(z3.Int(fresh_name(f"k{ordinal}")))
             p.frame.locals[kname] = kv
